@@ -47,6 +47,18 @@ THEOREMS = [
     "Verif.C11.route_error",
     "Verif.C11.bias_correction_factor",
     "Verif.C11.mkModel_ok_iff",
+    # deepening round D: objective of the fit, uniqueness of its zero (recovery), driving-peak estimator after the FFT
+    "Verif.C11.fit_objective_nonneg",
+    "Verif.C11.fit_objective_zero_iff",
+    "Verif.C11.fit_objective_minimised_by_generating",
+    "Verif.C11.spectrum_model_lorentz_diode",
+    "Verif.C11.fit_recovery_unique_lorentz_diode",
+    "Verif.C11.fit_twin_minimiser",
+    "Verif.C11.fit_recovery_unique_lorentzian",
+    "Verif.C11.driving_peak_parabola_exact",
+    "Verif.C11.driving_peak_gaussian_recovery",
+    "Verif.C11.driving_peak_window_constants",
+    "Verif.C11.driving_peak_answer_sound",
 ]
 RULE = (
     "corpus (8 representative + the open finding F-C11-1) + exhaustive option matrix (hydro x axial x distance{None, at the "
@@ -72,13 +84,22 @@ RULE = (
     "derived}); the model it built is compared cell by cell (drag, correction factor, kappa, Rd, Rf, errors) and hydro + "
     "axial must be rejected there as by the constructor. Non-trivial: the model was constructed and every reported number is finite (identities evaluated), "
     "a routing case, a non-singular analytical fit, a rejection of a configuration outside the documented domain, a "
-    "completed exploration fit."
+    "completed exploration fit. DEEPENING ROUND D: every exploration fit also sends the block-averaged spectrum and the "
+    "(uncorrected) fitted parameters to the model, whose objective chi^2 (op c11.chi2, all filters and the hydrodynamic "
+    "spectrum) must equal the chi_squared_per_deg the code reports; every driving-signal case sends numpy's spectrum of the "
+    "windowed record around the search range to the model's estimator (op c11.drive: search mask, peak bin, three-point "
+    "log-parabola, both RuntimeError branches, IndexError for an empty search range, vertex, amplitude, amp_std) and "
+    "compares (frequency, amplitude, amp_std) or the error; a deterministic small scope (3 frequencies x 6 guess offsets "
+    "incl. peak outside the search range and search range beyond Nyquist x {no, stronger, weaker} second tone inside the "
+    "range) exercises the peak search."
 )
 TRUSTED = [
     "RealLike formulas are proved over the reals and executed at Float: rounding is not modelled, the comparison "
     "tolerance (rel 1e-9; analytical fit: 1e-9 x conditioning scale supplied by the model) absorbs it",
-    "numpy.fft, scipy.optimize.curve_fit/minimize, scipy.signal.windows.gaussian, np.polyfit are NOT modelled: recovery "
-    "of (fc, D, f_diode, alpha) by the optimiser and of amplitude/frequency by the FFT estimator is exploration only",
+    "numpy.fft, scipy.optimize.curve_fit/minimize, scipy.signal.windows.gaussian are NOT modelled: that the optimiser "
+    "reaches the (proved unique) zero of the modelled objective, and that the spectrum of a Gaussian-windowed sinusoid is "
+    "the Gaussian the estimator is proved to invert, is exploration only; np.polyfit on three points is modelled as the "
+    "interpolating parabola (Newton form)",
     "active calibration: driving frequency/amplitude and the peak power density are measured by the code (FFT) and "
     "passed to the model as inputs",
 ]
@@ -88,6 +109,9 @@ ASSUMPTIONS = [
     "analytic_lorentzian_exact needs a0 + b0 f_k^2 != 0 for every k and a non-zero determinant (proved positive as "
     "soon as two frequencies with non-zero power have different squares)",
     "optimiser recovery explored only inside the conditioning box 3 f_min <= fc <= 0.3 f_diode",
+    "fit_recovery_unique_lorentz_diode needs f_c < f_diode for the candidate too (necessary: fit_twin_minimiser), four "
+    "frequencies with distinct squares in the spectrum, alpha < 1; non-hydrodynamic spectrum only",
+    "driving_peak_gaussian_recovery: three distinct bin frequencies, K, sigma > 0, centre inside the search range",
 ]
 
 KB = 1.380649e-23
@@ -316,7 +340,7 @@ def impl(case):
 
 
 def n_ops(case):
-    return {"passive": 1, "psd": 1, "active": 1, "route": 3, "anl": 1, "fit": 3, "drive": 0, "filter": 1, "calib": 1}[case["op"]]
+    return {"passive": 1, "psd": 1, "active": 1, "route": 3, "anl": 1, "fit": 4, "drive": 1, "filter": 1, "calib": 1}[case["op"]]
 
 
 def _impl(case, k):
@@ -382,7 +406,13 @@ def _impl(case, k):
     if k == "drive":
         r = run_drive(case)
         _cache[("drive", case_key(case))] = r
-        return []
+        _cache[("drive-slice", case_key(case))] = drive_slice(case)
+        d = r["direct"]
+        if d is None:
+            return ["?"]
+        if "error" in d:
+            return [d["error"]]
+        return ["ok " + show_floats([d["freq"], d["amp"], d["amp_std"]])]
     raise ValueError(k)
 
 
@@ -530,14 +560,21 @@ def impl_fit(c):
         "fixed_reported": [r1.diode_frequency, r1.diode_relaxation_factor],
         "fitted_diode": r1.fitted_diode,
         "chi2": r1.chi_squared_per_degree,
+        "chi2_0": r0.chi_squared_per_degree,
+        "pars0": [float(r0.results[nm].value) for nm in names],
+        "fs": [float(x) for x in f],
+        "ps": [float(x) for x in power],
     }
     info = {k: (float(v) if isinstance(v, (np.floating, float, int)) and not isinstance(v, bool) else v) for k, v in info.items()}
     _cache[("fit", case_key(c))] = info
     obs = passive_observables(m, o, r1)
+    dof = len(f) - 2 - len(names)
     return [
         enc_float(info["D"]) + " " + enc_float(info["eD"]),
         f"ok {branch_of(o)} " + show_floats(obs),
         "ok " + enc_float(info["model_at_probe"]),
+        # deepening round D: the objective of _fit_power_spectra as the code reports it (without bias correction)
+        "ok " + show_floats([info["chi2_0"] * dof, info["chi2_0"]]),
     ]
 
 
@@ -617,10 +654,42 @@ def impl_calib(c):
     return [f"ok {branch_of(o)} " + show_floats(obs)]
 
 
-def run_drive(c):
+def drive_signal(c):
     g = np.random.default_rng(c["subseed"])
     t = np.arange(c["n"]) / c["rate"]
     x = c["amp"] * np.sin(2 * np.pi * c["f"] * t + c["phase"]) + c["offset"] + c["noise"] * g.standard_normal(c["n"])
+    for f2, a2 in c.get("tones", []):  # further tones inside / outside the search range (small scope of the peak search)
+        x = x + a2 * c["amp"] * np.sin(2 * np.pi * f2 * t + 0.4)
+    return x
+
+
+def drive_slice(c):
+    """what the model is handed: the part of numpy's spectrum of the Gaussian-windowed record (window, mean removal and
+    rfft are NOT modelled: recomputed here with the recipe of the docstring of estimate_driving_input_parameters) that
+    covers the search range and three bins on either side, the variance of the record and the two window sums"""
+    import scipy.signal
+
+    x = drive_signal(c)
+    n = len(x)
+    w = scipy.signal.windows.gaussian(M=n, std=n / 10, sym=False)
+    spec = np.abs(np.fft.rfft(w * (x - np.mean(x))))
+    freq = np.fft.rfftfreq(n, 1.0 / c["rate"])
+    df = c["rate"] / n
+    keep = np.nonzero(np.logical_and(freq > c["guess"] - 5.0 - 3.5 * df, freq < c["guess"] + 5.0 + 3.5 * df))[0]
+    if len(keep) == 0:  # search range beyond the spectrum: the last bins (none of them inside the range)
+        keep = np.arange(max(0, len(freq) - 4), len(freq))
+    return {
+        "freqs": [float(v) for v in freq[keep]],
+        "mags": [float(v) for v in spec[keep]],
+        "lo": int(keep[0]),
+        "var": float(np.var(x)),
+        "sw": float(np.sum(w)),
+        "sw2": float(np.sum(w**2)),
+    }
+
+
+def run_drive(c):
+    x = drive_signal(c)
     out = {}
     # direct tie: the anchored estimator (a function of the `detail` package, no public name of its own)
     try:
@@ -685,7 +754,7 @@ def ops(case):
     if k == "fit":
         info = _cache.get(("fit", case_key(case)))
         if info is None:
-            return ["c11.bias 1 " + enc_float(0.0), "c11.fitfailed", "c11.fitfailed"]
+            return ["c11.bias 1 " + enc_float(0.0), "c11.fitfailed", "c11.fitfailed", "c11.fitfailed"]
         o = case["o"]
         fixed = case.get("fixed")
         # the filter parameters the spectrum model is evaluated with: fitted values in order
@@ -695,6 +764,8 @@ def ops(case):
             f"{enc_float(info['eD'])}",
             f"c11.psd {opt_tokens(o)} {filt_tokens(o, fixed)} {enc_float(info['fprobe'])} {enc_float(info['fc'])} "
             f"{enc_float(info['D'])} {fl(info['pars'])}",
+            f"c11.chi2 {opt_tokens(o)} {filt_tokens(o, fixed)} {fl(info['fs'])} {fl(info['ps'])} {case['nblock']} "
+            f"{enc_float(info['fc0'])} {enc_float(info['D0'])} {fl(info['pars0'])}",
         ]
     if k == "calib":
         info = _cache.get(("calib", case_key(case)))
@@ -716,7 +787,14 @@ def ops(case):
             f"{enc_float(info['eD'])} {fl(info['pars'])}"
         ]
     if k == "drive":
-        return []
+        sl = _cache.get(("drive-slice", case_key(case)))
+        if sl is None:
+            return ["c11.drivefailed"]
+        return [
+            f"c11.drive {fl(sl['freqs'])} {fl(sl['mags'])} {enc_float(case['guess'])} {enc_float(5.0)} "
+            f"{enc_float(2.0 / case['rate'])} {enc_float(float(case['n']))} {enc_float(sl['var'])} {enc_float(sl['sw'])} "
+            f"{enc_float(sl['sw2'])}"
+        ]
     raise ValueError(k)
 
 
@@ -730,6 +808,10 @@ def agree(case, i, ia, ma):
         return False
     if k == "anl":
         return agree_anl(case, ia, ma)
+    if k == "fit" and i == 3:
+        return agree_chi2(case, ia, ma)
+    if k == "drive":
+        return agree_drive(case, ia, ma)
     if k == "route" and i == 0:
         return ia == ma  # parameters are placed, not computed: bit-exact
     ti, tm = ia.split(" "), ma.split(" ")
@@ -746,6 +828,48 @@ def agree(case, i, ia, ma):
         elif a != b:
             return False
     return True
+
+
+def agree_chi2(case, ia, ma):
+    """chi^2 = n * sum (P/model - 1)^2.  On a noise-free spectrum every residual x = P/model - 1 is itself at the level
+    of the optimiser's tolerance, so the value is dominated by the rounding delta of x (64 ulp allowed: the hydrodynamic
+    spectrum is a page of complex arithmetic): |d chi^2| <= 2 delta sqrt(n N chi^2) + n N delta^2 (Cauchy-Schwarz),
+    plus the usual 1e-9 relative."""
+    vi, vm = parse_floats(ia.split(" ")[1]), parse_floats(ma.split(" ")[1])
+    if len(vi) != 2 or len(vm) != 2 or any(v is None for v in vi + vm):
+        return False
+    info = _cache.get(("fit", case_key(case)))
+    npts = len(info["fs"]) if info else case["npts"]
+    dof = npts - 2 - (len(info["names"]) if info else 0)
+    n = case["nblock"]
+    delta = 64 * 2.220446049250313e-16
+    c = abs(vm[0])
+    tol = 1e-9 * c + 2 * delta * math.sqrt(n * npts * c) + n * npts * delta * delta
+    return abs(vi[0] - vm[0]) <= tol and abs(vi[1] - vm[1]) <= tol / max(dof, 1)
+
+
+def agree_drive(case, ia, ma):
+    """frequency: 1e-9 relative.  amplitude = exp(p2 - p1^2/(4 p0) + ...): both terms of the exponent are as large as
+    |p2| (~ mu^2/(2 sigma^2), 1e3..1e6) and cancel to log K, and np.polyfit returns p2 with a relative error of a few
+    ulp times the conditioning of the 3x3 Vandermonde system: relative tolerance 1e-9 + 4096 ulp (1 + |p2|)."""
+    tm = ma.split(" ")
+    if tm[0] != "ok" or len(tm) != 4:
+        return False
+    vi, vm, pm = parse_floats(ia.split(" ")[1]), parse_floats(tm[2]), parse_floats(tm[3])
+    if len(vi) != 3 or len(vm) != 3 or any(v is None for v in vi + vm + pm):
+        return False
+    atol = 1e-9 + 4096 * 2.220446049250313e-16 * (1.0 + abs(pm[2]))
+    if not close(vi[0], vm[0], 1e-9):
+        return False
+    if not abs(vi[1] - vm[1]) <= atol * abs(vm[1]):
+        return False
+    # amp_std = ENBW sqrt(q) / sqrt(N), q = |var - amp^2/2|: for a clean sinusoid q is a difference of equal numbers;
+    # |sqrt(q) - sqrt(q')| <= sqrt|q - q'| and |q - q'| <= atol amp^2 + 4 ulp var
+    sl = _cache.get(("drive-slice", case_key(case))) or {"var": 0.0, "sw": 1.0, "sw2": 1.0}
+    n = float(case["n"])
+    factor = n * sl["sw2"] / (sl["sw"] ** 2) / math.sqrt(n)
+    dq = atol * vm[1] ** 2 + 4 * 2.220446049250313e-16 * abs(sl["var"])
+    return abs(vi[2] - vm[2]) <= 1e-9 * abs(vm[2]) + factor * math.sqrt(dq)
 
 
 def agree_anl(case, ia, ma):
@@ -1157,6 +1281,14 @@ def oracle_drive(c):
     both = _cache.get(("drive", case_key(c)))
     if both is None:
         return "drive: no result"
+    if c.get("scope"):
+        # small scope of the peak search: two tones / peak outside the range - the recovery clause does not apply; what
+        # the property text does determine: an answer lies inside the search range the caller asked for
+        for route in ("direct", "public"):
+            r = both[route]
+            if r is not None and "error" not in r and not abs(r["freq"] - c["guess"]) <= 5.0 * (1 + 1e-12):
+                return f"driving-peak: frequency {r['freq']} returned outside the search range {c['guess']} +- 5 Hz"
+        return None
     for route in ("direct", "public"):
         r = both[route]
         if r is None:
@@ -1272,6 +1404,24 @@ def extra_coverage(results):
             1 for r in results if r["case"]["op"] == "calib" and r["case"]["o"]["axial"] and r["case"]["o"]["dist"] and not r["case"]["o"]["hydro"]
         ),
         "calibrate_force_rejections": sum(1 for r in results if r["case"]["op"] == "calib" and not r["impl"][0].startswith("ok")),
+    }
+    drv = [r for r in results if r["case"]["op"] == "drive"]
+    dbr = {}
+    for r in drv:
+        a = r["impl"][0] if r["impl"] else "?"
+        key = "ok" if a.startswith("ok") else a
+        dbr[key] = dbr.get(key, 0) + 1
+    cov["deepening_D"] = {
+        "chi2_objective_ties": sum(1 for r in fits if len(r["impl"]) > 3 and r["impl"][3].startswith("ok")),
+        "chi2_objective_ties_hydro": sum(1 for r in fits if len(r["impl"]) > 3 and r["impl"][3].startswith("ok") and r["case"]["o"]["hydro"]),
+        "chi2_objective_ties_noise_free": sum(1 for r in fits if len(r["impl"]) > 3 and r["impl"][3].startswith("ok") and not r["case"]["noisy"]),
+        "drive_estimator_ties": len(drv),
+        "drive_estimator_scope_cases": sum(1 for r in drv if r["case"].get("scope")),
+        "drive_estimator_branches(impl)": dict(sorted(dbr.items())),
+        "drive_estimator_branches(model)": {
+            k: sum(1 for r in drv if r["model"] and (r["model"][0].split(" ")[0] if not r["model"][0].startswith("ok") else "ok") == k)
+            for k in ("ok", "RuntimeError", "IndexError", "unmodelled-wraparound")
+        },
     }
     anl = [r for r in results if r["case"]["op"] == "anl"]
     br = {"a/b>0,b>0 (regular)": 0, "a/b<=0 (fc fall-back)": 0, "b<=0 (D fall-back)": 0, "singular": 0}
@@ -1600,6 +1750,29 @@ def drive_case(rng, stream, quick):
     }
 
 
+def drive_scope():
+    """deterministic small scope of the peak search of estimate_driving_input_parameters (independent of the seed)"""
+    rate, n = 10000.0, 20000
+    for f in (17.0, 17.25, 36.9):
+        for off in (0.0, -4.6, 3.1, 6.2, -7.4, 6000.0):
+            for tones in ([], [(f + 2.0, 3.0)], [(f - 1.5, 0.5)]):
+                yield {
+                    "stream": "scope-drive",
+                    "op": "drive",
+                    "scope": True,
+                    "rate": rate,
+                    "n": n,
+                    "f": f,
+                    "amp": 0.8,
+                    "phase": 0.3,
+                    "offset": 1.1,
+                    "noise": 0.0,
+                    "guess": f + off,
+                    "tones": [list(t) for t in tones],
+                    "subseed": 1,
+                }
+
+
 FIXED_PATTERNS = [None, [9000.0, None], [None, 0.25], [12000.0, 0.5]]
 
 
@@ -1700,6 +1873,7 @@ def cases(tier, rng):
     r = rng.fork("drive")
     for _ in range(30 if quick else 400):
         yield drive_case(r, "exploration-drive", quick)
+    yield from drive_scope()
     yield from calib_matrix(quick)
     r = rng.fork("calib")
     for i in range(16 if quick else 160):
